@@ -1,0 +1,152 @@
+//! Hooks for deterministic simulation (only compiled with `--cfg oxidd_verif`)
+//!
+//! Every blocking primitive and a few selected points of the manager, cache,
+//! worker pool and reordering implementations call into the function table
+//! installed via [`install()`]. Without an installed table, all hooks are
+//! no-ops (threads are spawned via [`std::thread`]). This keeps the scheduler
+//! itself out of the OxiDD source tree.
+
+use std::sync::atomic::{AtomicPtr, Ordering};
+
+/// Function table to be provided by a simulator
+pub struct Hooks {
+    /// Decision point: the calling thread is about to perform the action
+    /// identified by `site`; the simulator may run other threads first.
+    pub yield_point: fn(site: u32),
+    /// The calling thread cannot make progress (a try-lock failed, a condition
+    /// is not yet met, a queue is empty); the simulator must run another
+    /// thread before returning.
+    pub spin: fn(site: u32),
+    /// The calling thread is about to spawn a thread named `name`, which will
+    /// call `thread_start` first thing. This allows the simulator to assign
+    /// thread identities in a deterministic order.
+    pub expect_thread: fn(name: &'static str),
+    /// First call of a freshly spawned thread announced via `expect_thread`;
+    /// returns once the simulator schedules the thread for the first time.
+    pub thread_start: fn(name: &'static str),
+    /// Last call of a thread that called `thread_start`
+    pub thread_exit: fn(),
+    /// Cooperative fault point: returns `true` if the unusual-but-legal
+    /// behavior identified by `site` should happen now
+    pub buggify: fn(site: u32) -> bool,
+    /// Tuning knob `id`, `default` being the shipped value
+    pub knob: fn(id: u32, default: u64) -> u64,
+}
+
+static HOOKS: AtomicPtr<Hooks> = AtomicPtr::new(std::ptr::null_mut());
+
+/// Install the hook table (once per process)
+pub fn install(hooks: &'static Hooks) {
+    HOOKS.store(std::ptr::from_ref(hooks).cast_mut(), Ordering::Release);
+}
+
+#[inline]
+fn hooks() -> Option<&'static Hooks> {
+    let ptr = HOOKS.load(Ordering::Acquire);
+    // SAFETY: the pointer is either null or derived from a `&'static Hooks`
+    unsafe { ptr.as_ref() }
+}
+
+/// See [`Hooks::yield_point`]
+#[inline]
+pub fn yield_point(site: u32) {
+    if let Some(h) = hooks() {
+        (h.yield_point)(site)
+    }
+}
+
+/// See [`Hooks::spin`]
+#[inline]
+pub fn spin(site: u32) {
+    match hooks() {
+        Some(h) => (h.spin)(site),
+        None => std::thread::yield_now(),
+    }
+}
+
+/// See [`Hooks::expect_thread`]
+#[inline]
+pub fn expect_thread(name: &'static str) {
+    if let Some(h) = hooks() {
+        (h.expect_thread)(name)
+    }
+}
+
+/// Guard returned by [`thread_start()`], calls [`Hooks::thread_exit`] when
+/// dropped
+pub struct ThreadGuard(());
+
+impl Drop for ThreadGuard {
+    fn drop(&mut self) {
+        if let Some(h) = hooks() {
+            (h.thread_exit)()
+        }
+    }
+}
+
+/// See [`Hooks::thread_start`]
+#[inline]
+pub fn thread_start(name: &'static str) -> ThreadGuard {
+    if let Some(h) = hooks() {
+        (h.thread_start)(name)
+    }
+    ThreadGuard(())
+}
+
+/// See [`Hooks::buggify`]
+#[inline]
+pub fn buggify(site: u32) -> bool {
+    match hooks() {
+        Some(h) => (h.buggify)(site),
+        None => false,
+    }
+}
+
+/// See [`Hooks::knob`]
+#[inline]
+pub fn knob(id: u32, default: u64) -> u64 {
+    match hooks() {
+        Some(h) => (h.knob)(id, default),
+        None => default,
+    }
+}
+
+/// Site and knob identifiers
+#[allow(missing_docs)]
+pub mod site {
+    pub const MUTEX_LOCK: u32 = 1;
+    pub const MUTEX_SPIN: u32 = 2;
+    pub const CONDVAR_WAIT: u32 = 3;
+    pub const CONDVAR_NOTIFY: u32 = 4;
+    pub const RWLOCK_SHARED: u32 = 5;
+    pub const RWLOCK_EXCLUSIVE: u32 = 6;
+    pub const RWLOCK_SPIN: u32 = 7;
+    pub const ADD_NODE: u32 = 10;
+    pub const GET_OR_INSERT: u32 = 11;
+    pub const DROP_TABLE_EDGE: u32 = 12;
+    pub const TRY_REMOVE_NODE: u32 = 13;
+    pub const GC_START: u32 = 14;
+    pub const GC_LEVEL: u32 = 15;
+    pub const GC_END: u32 = 16;
+    pub const FUNCTION_DROP: u32 = 17;
+    pub const FUNCTION_CLONE: u32 = 18;
+    pub const TERMINAL_GET: u32 = 19;
+    pub const CACHE_GET: u32 = 20;
+    pub const CACHE_GET_CLONE: u32 = 21;
+    pub const CACHE_ADD: u32 = 22;
+    pub const CACHE_SPIN: u32 = 23;
+    pub const CACHE_PRE_GC: u32 = 24;
+    pub const CACHE_POST_GC: u32 = 25;
+    pub const POOL_JOIN: u32 = 30;
+    pub const POOL_IDLE: u32 = 31;
+    pub const POOL_WAIT: u32 = 32;
+    pub const POOL_TAKE: u32 = 33;
+    pub const LEVEL_SWAP: u32 = 40;
+    pub const LEVEL_SWAP_DONE: u32 = 41;
+
+    pub const BUGGIFY_ALLOC_FAIL: u32 = 100;
+    pub const BUGGIFY_CACHE_MISS: u32 = 101;
+    pub const BUGGIFY_CACHE_DROP_INSERT: u32 = 102;
+
+    pub const KNOB_SORT_THRESHOLD: u32 = 200;
+}
